@@ -60,6 +60,23 @@ def _pool_job(job):
         out["problems"].append(("global_rng_dependence", f"np.random.seed(1) -> {i0}, seed(2) -> {i2}, seed(3) -> {i3}"))
     if not same(i0, u0, i4, u4):
         out["problems"].append(("repeat_differs", f"{i0} then {i4} on the same object"))
+    # a USED object (it has answered other calls before) against a fresh twin on the identical call: the result is a function of the
+    # constructor parameters and the call arguments, not of the object's history (caches kept between the cycles of a loop)
+    try:
+        y2 = y.copy()
+        y2[[int(i) for i in i0 if 0 <= int(i) < len(y2)]] = y_true[[int(i) for i in i0 if 0 <= int(i) < len(y2)]]
+        # ProbCover documents that distances_ / delta_max_ of the first call are kept unless query(..., update=True) is passed
+        if np.isnan(y2).any() and E.base != "ProbCover":
+            def q2(objx):
+                np.random.seed(1)
+                idx, ut = objx.query(X=X.copy(), y=y2.copy(), batch_size=bs, return_utilities=True, **E.kw(classes, seed))
+                return np.asarray(idx).tolist(), np.asarray(ut, dtype=float)
+            j0, v0 = q2(obj)
+            j1, v1 = q2(E.make(classes, seed))
+            if not same(j0, v0, j1, v1):
+                out["problems"].append(("history_dependent", f"after an earlier query the object returns {j0}, a fresh twin {j1} for the identical call"))
+    except Exception:
+        pass
     _instance_variant(E, rng, classes, bs, out, same)
     for lab in ("cold", str(rng.choice(["few", "half"]))):      # cold start: every prediction is a tie
         _prefit_variant(E, rng, classes, seed, bs, out, same, lab)
